@@ -203,6 +203,13 @@ def discharge(ctx: Ctx, ob: Obligation, use_cvc5_always=False) -> dict:
         return rec
     s.add(z3.Not(ob.goal))
     r = s.check()
+    if r == z3.unknown:
+        # one retry with a three times larger budget before the obligation counts as not re-established
+        rec["reason_unknown"] = s.reason_unknown()
+        s.set("timeout", ctx.timeout_ms * 3)
+        r = s.check()
+        if r == z3.unknown:
+            rec["reason_unknown"] = s.reason_unknown()
     verdict = str(r)
     if verdict == "unknown" or use_cvc5_always:
         r2 = cvc5_check(s.to_smt2(), max(2, ctx.timeout_ms // 1000))
